@@ -20,7 +20,7 @@
        (and (= (str.substr s (lastIndexOf s t) (str.len t)) t)
             (<= (+ (lastIndexOf s t) (str.len t)) (str.len s))
             (>= (lastIndexOf s t) (str.indexof s t 0))
-            (not (str.contains (str.substr s (+ (lastIndexOf s t) 1) (str.len s)) t)))))
+            (=> (> (str.len t) 0) (not (str.contains (str.substr s (+ (lastIndexOf s t) 1) (str.len s)) t))))))
    :pattern ((lastIndexOf s t)))))
 
 ;@chunk trimSpace trimSpace
@@ -89,9 +89,15 @@
 (declare-fun fmtDyn (String) String)
 (assert (forall ((f String)) (! (=> (not (str.contains f "%")) (= (fmtDyn f) f)) :pattern ((fmtDyn f)))))
 
-;@chunk backend backendAddr
-; address of a backend: a function of the backend object alone (its address field is immutable after construction)
-(declare-fun backendAddr (Any) String)
+;@chunk backend backendAddr udpAddrString
+; address of a backend. TCP: the immutable backendAddr field; UDP: String() of the immutable *net.UDPAddr;
+; anything else (the round-robin pool used as a Backend): unspecified.
+(declare-fun udpAddrString (Int) String)
+(declare-fun otherBackendAddr (Any) String)
+(define-fun backendAddr ((H_TCPBackend_backendAddr (Array Int String)) (H_UDPBackend_backendAddr (Array Int Int)) (a Any)) String
+  (ite (= (tyOf a) TID__TCPBackend) (select H_TCPBackend_backendAddr (refOf a))
+  (ite (= (tyOf a) TID__UDPBackend) (udpAddrString (select H_UDPBackend_backendAddr (refOf a)))
+       (otherBackendAddr a))))
 ;@ghost sends (Seq Any)
 ;@ghost closedB (Seq Any)
 ;@ghost bmAdds (Seq Any)
@@ -109,3 +115,29 @@
 (declare-fun msgBytesFail (Int) Bool)
 ;@ghost ctsends (Seq Any)
 ;@ghost cbcalls (Seq Any)
+
+;@chunk seqsub seqSub strIn
+; membership in a string sequence (front-peeling definition)
+(define-fun-rec strIn ((s String) (a (Seq String))) Bool
+  (ite (<= (seq.len a) 0) false
+       (or (= (seq.nth a 0) s) (strIn s (seq.extract a 1 (- (seq.len a) 1))))))
+; subsequence of a whose elements do not occur in b (defined by peeling the last element)
+(define-fun-rec seqSub ((a (Seq String)) (b (Seq String))) (Seq String)
+  (ite (<= (seq.len a) 0) (as seq.empty (Seq String))
+       (seq.++ (seqSub (seq.extract a 0 (- (seq.len a) 1)) b)
+               (ite (strIn (seq.nth a (- (seq.len a) 1)) b)
+                    (as seq.empty (Seq String))
+                    (seq.unit (seq.nth a (- (seq.len a) 1)))))))
+;@ghost nHost (Seq String)
+;@ghost nNew (Seq (Seq String))
+;@ghost nRemoved (Seq (Seq String))
+
+;@chunk hostport hostPortOf mapHostPort
+(define-fun hostPortOf ((ip String) (port String)) String
+  (ite (str.contains ip ":") (str.++ "[" ip "]:" port) (str.++ ip ":" port)))
+(define-fun-rec mapHostPort ((ips (Seq String)) (port String)) (Seq String)
+  (ite (<= (seq.len ips) 0) (as seq.empty (Seq String))
+       (seq.++ (mapHostPort (seq.extract ips 0 (- (seq.len ips) 1)) port)
+               (seq.unit (hostPortOf (seq.nth ips (- (seq.len ips) 1)) port)))))
+;@ghost rrAdds (Seq String)
+;@ghost rrRemoves (Seq String)
